@@ -105,6 +105,9 @@ def outcome_kind(api, hin, o):
             return f'expression in, {type(r).__name__} out'
         if api == 'simplify' and not (r.data_type & hin.data_type):
             return f'type {hin.data_type} in, {r.data_type} out'
+        if api == 'simplify' and (r.data_type | hin.data_type) != hin.data_type:
+            # "of the same type": the result may be more definite than the input, never wider
+            return f'type {hin.data_type} in, wider type {r.data_type} out'
         return None
     if api == 'split_and':
         if not isinstance(r, list):
